@@ -1,5 +1,6 @@
 import Rare.Proofs.C02
 import Rare.Proofs.C02Filter
+import Rare.Model.C02Plan
 import Rare.Props.C01
 import Rare.Props.C04
 import Rare.Props.C12
@@ -192,6 +193,39 @@ theorem match_indices_stable (ic : Bool) (p : C12.Pat) (hp : p.Shape) (d : C12.D
       rAll.take lines.length = r :=
   C12.earlier_results_unaltered ic p hp d hc lines more
 
+/-- **Flag plumbing** (`BuildMatcherFromArguments`): `--match` together with `--dissect` is refused;
+`--dissect` selects dissect with the ignore-case flag passed on; `--match` selects the regex engine in
+POSIX or Perl mode, on the user's expression – prefixed by the source's `(?i)` under `--ignore-case`
+and otherwise untouched; with neither flag every line matches.  (What the engines then do is their
+contract; `plan` cases compare the real function with the engines' own answers.) -/
+theorem matcher_plan_table (matchExpr dissectExpr : Bytes) (posix ic : Bool) :
+    matcherPlan true true matchExpr dissectExpr posix ic = .conflict ∧
+    matcherPlan false true matchExpr dissectExpr posix ic = .dissect dissectExpr ic ∧
+    matcherPlan true false matchExpr dissectExpr posix false = .regex matchExpr posix ∧
+    matcherPlan true false matchExpr dissectExpr posix true = .regex (lit Gen.C02.icPrefix ++ matchExpr) posix ∧
+    matcherPlan false false matchExpr dissectExpr posix ic = .always := by
+  have hp : lit Gen.C02.icPrefix = icPrefix := by decide
+  refine ⟨by simp [matcherPlan], by simp [matcherPlan], by simp [matcherPlan], ?_, by simp [matcherPlan]⟩
+  rw [hp]; simp [matcherPlan]
+
+/-- Without a matcher flag (`AlwaysMatch`) the index list is the single pair of the whole line: it is an
+engine-shaped list, group 0 is the line, there are no further groups and `{@}` is empty. -/
+theorem always_match_spec (line : Bytes) :
+    EngineWF line (alwaysIndices line) ∧ specGroup line (alwaysIndices line) 0 = line ∧
+    (∀ k : Int, k ≠ 0 → specGroup line (alwaysIndices line) k = []) := by
+  refine ⟨⟨by simp [alwaysIndices], by simp [alwaysIndices], ?_⟩, ?_, ?_⟩
+  · intro k hk
+    have : k = 0 := by simp [alwaysIndices] at hk; omega
+    subst this
+    right
+    simp [alwaysIndices]
+  · simp [specGroup, alwaysIndices]
+    intro h; omega
+  · intro k hk
+    unfold specGroup
+    have : ¬ (0 ≤ k ∧ 2 * k + 1 < ((alwaysIndices line).length : Int)) := by simp [alwaysIndices]; omega
+    simp [this]
+
 /-- Non-vacuity: an optional group that did not participate, a nested group, and a missing group. -/
 example : WF [97, 98, 99] [0, 3, -1, -1, 1, 2] ∧
     specGroup [97, 98, 99] [0, 3, -1, -1, 1, 2] 0 = [97, 98, 99] ∧
@@ -235,6 +269,8 @@ example :
      | .ok segs => (render segs, visible (render segs), strip segs)
      | .error _ => ([], [], []))
     = (lit "a\x1b[1mb \x1b[31mc\x1b[0m\n", lit "ab c\n", lit "a\x1b[1mb c\n") := by decide
+
+example : matcherPlan true false (lit "err (\\d+)") [] true true = .regex (lit "(?i)err (\\d+)") true := by decide
 
 /-- an index list of odd length < 2 would panic in `match.Indices[2:]` (no matcher returns one) -/
 example : (filterLine true [] [] [97] [0]).toBool = false := by decide
